@@ -265,6 +265,27 @@ def rule_after_baseline(ctx):
     for k, mg, uses_run in db_stores:
         later_override = any(j > k and stores[j][0] in ("update", "item") and j in run_stores and membership_guard(stores[j][2]) >= 0 and not stores[j][2] for j in range(len(stores)))
         ctx.check(mg == -1 or later_override, cf.fq, "a hash read from the database is used only for inputs that were not verified at run start", f"write #{k} to {var} takes the database record also for inputs listed in run.{attr}", "database hash is the fallback only", where=ctx.where_of(cf, stores[k][1]))
+    # (d) inputs accepted while the command runs (amend) get their baseline when they are accepted
+    am = ctx.prog.func("director.DirectorHandler.amend_step")
+    writers = []
+    for fi2 in ctx.prog.module("executor").all_funcs.values():
+        if fi2.fq in (nr.fq, cf.fq):
+            continue
+        for n in ast.walk(fi2.node):
+            if isinstance(n, ast.Attribute) and n.attr == attr and isinstance(n.value, ast.Name) and n.value.id == "run":
+                par_calls = [c for c in calls_in(fi2.node) if isinstance(c.func, ast.Attribute) and c.func.value is n]
+                stores = [a for a in ast.walk(fi2.node) if isinstance(a, ast.Assign) and any(isinstance(t, ast.Subscript) and t.value is n for t in a.targets)]
+                if par_calls or stores:
+                    writers.append((fi2, [c.func.attr for c in par_calls], bool(stores)))
+    keep_first = [w for w in writers if "setdefault" in w[1] and not w[2] and "update" not in w[1]]
+    called = {callee_name(c) for c in calls_in(am.node)}
+    via = [w[0].name for w in keep_first if w[0].name in called]
+    ctx.check(bool(via), am.fq, f"amended inputs are added to run.{attr} when they are accepted", f"amend_step calls no executor method that records run.{attr} (writers found: {[(w[0].fq, w[1]) for w in writers]}): an input amended by a running step is compared, after the command, with whatever the database says by then, so a change noticed by another step in between goes unseen and the step succeeds on content it did not read", f"through {via}", where=ctx.where_of(am))
+    ctx.check(all("setdefault" in w[1] and not w[2] and "update" not in w[1] for w in writers), "executor", f"later writers of run.{attr} keep the first hash of a path", f"a writer overrides hashes recorded earlier: {[(w[0].fq, w[1], w[2]) for w in writers]}", "setdefault only")
+    if via:
+        # what is recorded are the hashes of available inputs, read inside a transaction
+        srcs = [ast.unparse(c) for c in calls_in(am.node) if callee_name(c) in via]
+        ctx.check(any("inp_paths()" in ast.unparse(am.node) and ("FileState.BUILT" in ast.unparse(am.node)) for _ in srcs), am.fq, "the recorded hashes are those of the step's available inputs", "source of the recorded hashes not recognised", "step.inp_paths() filtered on BUILT/CONFIRMED")
     # (c) the Run field starts empty, so a run that never passed _new_run falls back to the database
     rn = ctx.prog.cls("run.Run") if hasattr(ctx.prog, "cls") else None
     if rn is not None and asg is not None:
@@ -477,7 +498,7 @@ RULES = [
     Rule("R-C03-5", "amend classifies every input", rule_amend_classification, min_instances=12),
     Rule("R-C03-6", "defer keeps the step wakeable", rule_defer_keeps_wakeable, min_instances=4),
     Rule("R-C03-7", "freshness test orientation and clock bookkeeping", rule_freshness, min_instances=7),
-    Rule("R-C03-9", "the comparison after the command uses the hashes verified at run start", rule_after_baseline, min_instances=5),
+    Rule("R-C03-9", "the comparison after the command uses the hashes verified at run start", rule_after_baseline, min_instances=8),
     Rule("R-C03-8", "amend-time, defer-time and report-time predicates agree", rule_three_predicates, min_instances=20),
 ]
 
@@ -493,6 +514,8 @@ MUTANTS = [
     Mutant("after-baseline-db-first", "executor.py", in_function("Executor._compute_full_step_hash", replace_once('            inp_hashes = {}\n            for rec in run.step.inp_paths():\n                if rec.path in run.start_inp_hashes:\n                    inp_hashes[rec.path] = run.start_inp_hashes[rec.path]\n                elif rec.state in (FileState.BUILT, FileState.CONFIRMED):\n                    inp_hashes[rec.path] = rec.hash\n', "            inp_hashes = {}\n            for rec in run.step.inp_paths():\n                if rec.state in (FileState.BUILT, FileState.CONFIRMED):\n                    inp_hashes[rec.path] = rec.hash\n                elif rec.path in run.start_inp_hashes:\n                    inp_hashes[rec.path] = run.start_inp_hashes[rec.path]\n")), ("R-C03-9",)),
     Mutant("run-start-hashes-not-kept", "executor.py", in_function("Executor._new_run", replace_once("            run.start_inp_hashes = dict(inp_hashes)\n", "")), ("R-C03-9",)),
     Mutant("run-start-hashes-on-failure-only", "executor.py", in_function("Executor._new_run", lambda s: s.replace("            run.start_inp_hashes = dict(inp_hashes)\n", "", 1).replace("        unexpected_input_changes = len(new_inp_hashes) > 0\n", "        run.start_inp_hashes = dict(inp_hashes)\n        unexpected_input_changes = len(new_inp_hashes) > 0\n", 1) if "run.start_inp_hashes = dict(inp_hashes)" in s else None), ("R-C03-9",)),
+    Mutant("amended-inputs-without-baseline", "director.py", in_function("DirectorHandler.amend_step", replace_once("        self.executor.note_input_hashes(job_i, inp_hashes)\n", "")), ("R-C03-9",)),
+    Mutant("amend-overrides-run-start-hashes", "executor.py", in_function("Executor.note_input_hashes", replace_once("            run.start_inp_hashes.setdefault(path, inp_hash)\n", "            run.start_inp_hashes[path] = inp_hash\n")), ("R-C03-9",)),
     Mutant("await-in-completion", "executor.py", in_function("Executor.execute_job", replace_once("            run.interrupted_defer = step.mark_completed(new_hash, wants_defer)\n", "            run.interrupted_defer = step.mark_completed(new_hash, wants_defer)\n            await asyncio.sleep(0)\n")), ("R-C03-4",)),
     Mutant("stop-clock-after-region", "executor.py", in_function("Executor.execute_job", lambda s: s.replace("            self.scheduler.record_run_stopped(step.i, succeeded=new_hash is not None)\n", "", 1).replace("        self._report_step_counts()\n\n        # Report the result of running the step\n", "        self.scheduler.record_run_stopped(step.i, succeeded=new_hash is not None)\n        self._report_step_counts()\n\n        # Report the result of running the step\n", 1) if "# Report the result of running the step" in s else None), ("R-C03-4",)),
     Mutant("unconfirmed-accepted", "workflow.py", in_function("Workflow.amend_step", replace_once("            elif availability == Availability.UNCONFIRMED:\n                unconfirmed.add(info.file)\n", "            elif availability == Availability.UNCONFIRMED:\n                pass\n")), ("R-C03-5",)),
